@@ -314,3 +314,20 @@ pub mod verif_hooks {
         }
     }
 }
+
+// verification hooks (add-only): the clique-graph merge strategy pass by pass.
+// Re-exported as `clarabel::verif_hooks::chordal_cg`.
+#[cfg(feature = "verif-hooks")]
+#[allow(missing_docs)]
+pub mod verif_hooks_cg {
+    use super::*;
+    pub use super::vh_clique_graph_trace::CgSnapshot;
+
+    /// `merge_cliques` of the clique-graph strategy on the tree `d`: the state after
+    /// `initialise` and after every pass of the loop, and the tree after `post_process_merge`
+    pub fn merge_cliques_cg_trace(d: &verif_hooks::TreeDump) -> (Vec<CgSnapshot>, verif_hooks::TreeDump) {
+        let mut t = verif_hooks::load_tree(d);
+        let trace = vh_clique_graph_trace::merge_cliques_trace(&mut t);
+        (trace, verif_hooks::dump_tree(&t))
+    }
+}
